@@ -219,6 +219,22 @@ CLAIMED["C09"] = (
     "compared with the model's first-applicable-rule prediction (drift).",
     "5/C09", "")
 
+CLAIMED["C16"] = (
+    "TLA+ graph model with a declarative occurrence relation and a transcription of the recursive matcher "
+    "(PatternMatch.tla) checked by TLC over a molecule builder; every built molecule replayed into the real "
+    "pattern_match; real is_functional_group answers under renumbering validated by TLC (PatternMatch_Trace.tla)",
+    "TLC walks a molecule builder (atoms over C/N/O/S, single/double/triple bonds, valence-pruned, at most one ring "
+    "closure) and checks in every state, for every anchor and 25 pattern graphs of the shipped table: every real "
+    "occurrence is found, a match is a real occurrence on ring-free molecules (with a ring it must fail: the known "
+    "finding), and the answer is identical for every permutation of the atoms. Built molecules are turned into RDKit "
+    "molecules directly from the atom / bond lists and passed to the real pattern_match; TLC evaluates Occurs and the "
+    "transcription on the logged graphs and compares (soundness, completeness, model drift, and the harness's own "
+    "reference matcher). For corpus and hand-picked molecules (fused aromatics, small rings, carbonates, anhydrides ...) "
+    "the real is_functional_group is called for all 24 groups at every hetero atom and at the image atom of random "
+    "renumberings; TLC checks equality across renumberings and agreement with pattern AND group-atoms AND NOT "
+    "anti-pattern computed from reference occurrences.",
+    "5/C16", "")
+
 PENDING_REASON = "check not built yet in this round (planned, see DESIGN.md section 5); not claimed until it passes on the unchanged tree"
 
 
